@@ -311,6 +311,8 @@ def pat_str(p):
         return "&" + pat_str(p["pat"])
     if k == "p_range":
         return "%s..=%s" % (expr_str(p.get("lo")), expr_str(p.get("hi")))
+    if k == "p_slice":
+        return "[%s]" % ",".join(pat_str(e) for e in p.get("elems", []))
     return k or "?"
 
 
